@@ -1,1 +1,883 @@
-fn main() { println!("stub"); }
+//! C09 driver: snapshots / rotation / compaction racing with writers on the REAL HnswBackend.
+//!
+//!   c09 --out DIR --n N [--replay FILE]
+//!
+//! Three parts, one summary (DIR/summary.json):
+//!  (i)   skeleton: every modelled call alone on a persistent engine (rotation never / always,
+//!        snapshot due / not due, index full with / without tombstones) with the parking_lot recorder
+//!        on; the recorded lock sequence over the eight lock classes of HnswBackend and the resulting
+//!        collection go to DIR/cases_0.v, where coqc compares them with Model/Conc09.v (`solo`);
+//!  (ii)  directed schedules with the recorder's gate table for the windows the proof hinges on;
+//!  (iii) seeded stress: 1-2 writer threads + a manual-snapshot thread, tiny rotation thresholds and
+//!        capacities, seeded delays injected at lock operations through the gate table.
+//! Oracle of (ii) and (iii): after all calls returned, the live census equals the census of a strict
+//! `recover` on a COPY of the data directory (exact equality).
+use kvh::rng::Rng;
+use kvh_pers::eng;
+use kvh_pers::hist::{Census, Cfg, Meta};
+use kyrodb_engine::HnswBackend;
+use parking_lot::verif_trace as vt;
+use serde_json::{json, Value};
+use std::collections::{BTreeMap, HashMap};
+use std::path::{Path, PathBuf};
+use std::sync::atomic::{AtomicBool, AtomicUsize, Ordering};
+use std::sync::Arc;
+use std::time::{Duration, Instant};
+
+const SRC: &str = "/repo/engine/src/hnsw_backend.rs";
+const CLASSES: [&str; 8] = [
+    "snapshot_lock", "write_gate", "wal", "manifest_lock", "index", "doc_store", "metadata_index", "inserts_since_snapshot",
+];
+
+fn class_code(name: &str) -> Option<u64> {
+    CLASSES.iter().position(|c| *c == name).map(|i| (i + 1) as u64)
+}
+
+/// creation line -> field name, read from the source text that was compiled
+fn creation_lines() -> HashMap<u32, String> {
+    let text = std::fs::read_to_string(SRC).expect("engine source");
+    let mut m = HashMap::new();
+    for (i, line) in text.lines().enumerate() {
+        let l = line.trim();
+        if let Some(p) = l.find(": Arc::new(") {
+            let rest = &l[p + 11..];
+            if rest.starts_with("RwLock::new(") || rest.starts_with("Mutex::new(") {
+                let field = l[..p].trim().to_string();
+                if field.chars().all(|c| c.is_alphanumeric() || c == '_') {
+                    m.insert((i + 1) as u32, field);
+                }
+            }
+        }
+    }
+    m
+}
+
+fn class_of(e: &vt::Event, lines: &HashMap<u32, String>) -> Option<u64> {
+    let (f, l, _) = e.created?;
+    if !f.ends_with("hnsw_backend.rs") {
+        return None;
+    }
+    lines.get(&l).and_then(|n| class_code(n))
+}
+
+fn cfg(interval: usize, max_wal: u64, cap: usize) -> Cfg {
+    Cfg { dim: 2, metric: "euclidean".into(), capacity: cap, snapshot_interval: interval, max_wal_bytes: max_wal, fsync: "never".into() }
+}
+
+fn meta_of(m: u64) -> HashMap<String, String> {
+    let mut h = HashMap::new();
+    h.insert("k".to_string(), m.to_string());
+    h
+}
+
+#[derive(Clone, Debug)]
+enum Call {
+    Ins(u64, u64, u64),
+    Del(u64),
+    Upd(u64, u64),
+    Batch(Vec<u64>),
+    Snap,
+}
+
+fn do_call(b: &HnswBackend, c: &Call) -> String {
+    match c {
+        Call::Ins(id, v, m) => match b.insert(*id, vec![*v as f32, 0.0], meta_of(*m)) {
+            Ok(()) => "ok".into(),
+            Err(e) => format!("err:{}", short(&e)),
+        },
+        Call::Del(id) => match b.delete(*id) {
+            Ok(x) => format!("ok:{}", x),
+            Err(e) => format!("err:{}", short(&e)),
+        },
+        Call::Upd(id, m) => match b.update_metadata(*id, meta_of(*m), false) {
+            Ok(x) => format!("ok:{}", x),
+            Err(e) => format!("err:{}", short(&e)),
+        },
+        Call::Batch(ids) => match b.batch_delete(ids) {
+            Ok(n) => format!("ok:{}", n),
+            Err(e) => format!("err:{}", short(&e)),
+        },
+        Call::Snap => match b.create_snapshot() {
+            Ok(()) => "ok".into(),
+            Err(e) => format!("err:{}", short(&e)),
+        },
+    }
+}
+
+fn short(e: &anyhow::Error) -> String {
+    let s = format!("{:#}", e).to_lowercase();
+    if s.contains("full") { "full".into() } else { s.chars().take(60).collect() }
+}
+
+fn call_coq(c: &Call) -> String {
+    match c {
+        Call::Ins(i, v, m) => format!("SC (CIns {} {} {})", i, v, m),
+        Call::Del(i) => format!("SC (CDel {})", i),
+        Call::Upd(i, m) => format!("SC (CUpd {} {})", i, m),
+        Call::Batch(ids) => format!("SC (CBatch [{}])", ids.iter().map(|x| x.to_string()).collect::<Vec<_>>().join("; ")),
+        Call::Snap => "SSnap".into(),
+    }
+}
+
+fn call_json(c: &Call) -> Value {
+    json!(format!("{:?}", c))
+}
+
+/// census as (id, vector tag, metadata tag)
+fn census_tags(c: &Census) -> Vec<(u64, u64, u64)> {
+    c.iter()
+        .map(|(id, (bits, meta))| {
+            let v = f32::from_bits(bits[0]) as u64;
+            let m = meta.get("k").and_then(|s| s.parse::<u64>().ok()).unwrap_or(999_999);
+            (*id, v, m)
+        })
+        .collect()
+}
+
+fn fresh_dir(base: &Path, name: &str) -> PathBuf {
+    let d = base.join(name);
+    let _ = std::fs::remove_dir_all(&d);
+    std::fs::create_dir_all(&d).unwrap();
+    d
+}
+
+fn copy_dir(src: &Path, dst: &Path) {
+    let _ = std::fs::remove_dir_all(dst);
+    std::fs::create_dir_all(dst).unwrap();
+    for e in std::fs::read_dir(src).unwrap() {
+        let e = e.unwrap();
+        if e.file_type().unwrap().is_file() {
+            std::fs::copy(e.path(), dst.join(e.file_name())).unwrap();
+        }
+    }
+}
+
+fn manifest_json(dir: &Path) -> Value {
+    std::fs::read(dir.join("MANIFEST")).ok().and_then(|b| serde_json::from_slice(&b).ok()).unwrap_or(Value::Null)
+}
+
+/// the direct oracle: strict recover on a copy of `dir`; Ok(census) or Err(text)
+fn recover_copy(c: &Cfg, dir: &Path) -> Result<Census, String> {
+    let copy = dir.with_extension("copy");
+    copy_dir(dir, &copy);
+    let r = match eng::start(c, &copy) {
+        Ok(b) => Ok(eng::census(&b)),
+        Err(e) => Err(format!("{:#}", e)),
+    };
+    let _ = std::fs::remove_dir_all(&copy);
+    r
+}
+
+// ---------------------------------------------------------------------------------------------
+// (i) skeleton
+// ---------------------------------------------------------------------------------------------
+
+struct Skel {
+    name: &'static str,
+    interval: usize,
+    max_wal: u64,
+    cap: usize,
+    setup: Vec<Call>,
+    call: Call,
+}
+
+fn skeleton_cases() -> Vec<Skel> {
+    use Call::*;
+    let mut v = vec![];
+    for (iv, mw, tag) in [(0usize, 0u64, "plain"), (0, 1, "rot"), (1, 0, "due"), (1, 1, "rot+due"), (2, 1, "rot+notdue")] {
+        let n = |s: &'static str| -> &'static str { Box::leak(format!("{}/{}", s, tag).into_boxed_str()) };
+        v.push(Skel { name: n("insert-new"), interval: iv, max_wal: mw, cap: 100, setup: vec![], call: Ins(1, 3, 4) });
+        v.push(Skel { name: n("insert-overwrite"), interval: iv, max_wal: mw, cap: 100, setup: vec![Ins(1, 3, 4)], call: Ins(1, 5, 6) });
+        v.push(Skel { name: n("delete-live"), interval: iv, max_wal: mw, cap: 100, setup: vec![Ins(1, 3, 4), Ins(2, 1, 1)], call: Del(1) });
+        v.push(Skel { name: n("delete-missing"), interval: iv, max_wal: mw, cap: 100, setup: vec![Ins(1, 3, 4)], call: Del(9) });
+        v.push(Skel { name: n("update-live"), interval: iv, max_wal: mw, cap: 100, setup: vec![Ins(1, 3, 4)], call: Upd(1, 8) });
+        v.push(Skel { name: n("update-missing"), interval: iv, max_wal: mw, cap: 100, setup: vec![Ins(1, 3, 4)], call: Upd(9, 8) });
+        v.push(Skel { name: n("batch-live"), interval: iv, max_wal: mw, cap: 100, setup: vec![Ins(1, 3, 4), Ins(2, 1, 1), Ins(3, 2, 2)], call: Batch(vec![1, 9, 3, 1]) });
+        v.push(Skel { name: n("batch-none"), interval: iv, max_wal: mw, cap: 100, setup: vec![Ins(1, 3, 4)], call: Batch(vec![8, 9]) });
+        v.push(Skel { name: n("snapshot-empty"), interval: iv, max_wal: mw, cap: 100, setup: vec![], call: Snap });
+        v.push(Skel { name: n("snapshot-after-writes"), interval: iv, max_wal: mw, cap: 100, setup: vec![Ins(1, 3, 4), Ins(2, 1, 1), Del(1), Upd(2, 7)], call: Snap });
+        v.push(Skel { name: n("snapshot-twice"), interval: iv, max_wal: mw, cap: 100, setup: vec![Ins(1, 3, 4), Snap, Ins(2, 1, 1)], call: Snap });
+        v.push(Skel { name: n("insert-full-with-tombstones"), interval: iv, max_wal: mw, cap: 2, setup: vec![Ins(1, 3, 4), Ins(1, 5, 6)], call: Ins(2, 1, 1) });
+        v.push(Skel { name: n("insert-full-no-tombstones"), interval: iv, max_wal: mw, cap: 2, setup: vec![Ins(1, 3, 4), Ins(2, 5, 6)], call: Ins(3, 1, 1) });
+        v.push(Skel { name: n("insert-after-delete-full"), interval: iv, max_wal: mw, cap: 2, setup: vec![Ins(1, 3, 4), Ins(2, 5, 6), Del(1)], call: Ins(3, 1, 1) });
+    }
+    v
+}
+
+fn run_skeleton(base: &Path, lines: &HashMap<u32, String>) -> (String, Value) {
+    let cases = skeleton_cases();
+    let mut coq = String::new();
+    coq.push_str("From Coq Require Import List NArith Bool.\nFrom Kyro Require Import Model.Amap Model.Conc09.\nImport ListNotations.\nOpen Scope N_scope.\n");
+    coq.push_str("Definition cases : list (N * (N * N * N) * list scall * scall * list N * list (N * (N * N))) := [\n");
+    let mut js = vec![];
+    let mut ignored_total = 0usize;
+    let mut shapes: BTreeMap<String, usize> = BTreeMap::new();
+    for (k, sc) in cases.iter().enumerate() {
+        let c = cfg(sc.interval, sc.max_wal, sc.cap);
+        let dir = fresh_dir(base, &format!("skel_{}", k));
+        let b = eng::start(&c, &dir).expect("engine start");
+        for s in &sc.setup {
+            do_call(&b, s);
+        }
+        vt::clear();
+        vt::enable();
+        let me = vt::current_thread_no();
+        vt::mark("BEGIN");
+        let out = do_call(&b, &sc.call);
+        vt::mark("END");
+        vt::disable();
+        let evs = vt::drain();
+        let mut seq: Vec<u64> = vec![];
+        let mut ignored = 0usize;
+        for e in evs.iter().filter(|e| e.thread == me && e.kind != vt::Kind::Marker) {
+            let cls = match class_of(e, lines) {
+                Some(c) => c,
+                None => {
+                    ignored += 1;
+                    continue;
+                }
+            };
+            match (e.op, e.phase, e.mode) {
+                (vt::Op::Acquire, vt::Phase::Done, vt::Mode::Read) => seq.push(10 * cls + 1),
+                (vt::Op::Acquire, vt::Phase::Done, vt::Mode::Write) => seq.push(10 * cls + 2),
+                (vt::Op::Acquire, vt::Phase::Done, vt::Mode::Mutex) => seq.push(10 * cls + 3),
+                (vt::Op::Acquire, vt::Phase::Req, _) => {}
+                (vt::Op::Release, _, _) => seq.push(10 * cls),
+                _ => seq.push(10 * cls + 9), // try/upgrade/downgrade: not in the model -> mismatch
+            }
+        }
+        ignored_total += ignored;
+        let cen = census_tags(&eng::census(&b));
+        drop(b);
+        *shapes.entry(seq.iter().map(|x| x.to_string()).collect::<Vec<_>>().join(",")).or_insert(0) += 1;
+        coq.push_str(&format!(
+            "  ({}, ({}, {}, {}), [{}], {}, [{}], [{}]){}\n",
+            k,
+            sc.interval,
+            sc.max_wal,
+            sc.cap,
+            sc.setup.iter().map(call_coq).collect::<Vec<_>>().join("; "),
+            call_coq(&sc.call),
+            seq.iter().map(|x| x.to_string()).collect::<Vec<_>>().join("; "),
+            cen.iter().map(|(i, v, m)| format!("({}, ({}, {}))", i, v, m)).collect::<Vec<_>>().join("; "),
+            if k + 1 < cases.len() { ";" } else { "" }
+        ));
+        js.push(json!({"id": k, "name": sc.name, "cfg": [sc.interval, sc.max_wal, sc.cap],
+                        "setup": sc.setup.iter().map(call_json).collect::<Vec<_>>(), "call": call_json(&sc.call),
+                        "outcome": out, "locks": seq, "census": cen, "ignored_lock_events": ignored}));
+        let _ = std::fs::remove_dir_all(&dir);
+    }
+    coq.push_str("].\n");
+    coq.push_str(
+        "Fixpoint store_eqb (a b : list (N * (N * N))) : bool :=\n  match a, b with\n  | [], [] => true\n  | (k, (v, m)) :: r, (k', (v', m')) :: s => N.eqb k k' && N.eqb v v' && N.eqb m m' && store_eqb r s\n  | _, _ => false\n  end.\n\
+Definition run1 (x : N * (N * N * N) * list scall * scall * list N * list (N * (N * N))) : option (list N * store) :=\n  let '(_, (iv, mw, cap), setup, call, _, _) := x in\n  let c := mkCfg iv mw cap (fun _ => 1) in\n  match solo_all c init setup with\n  | Some st => match solo c st call with Some (st', ls) => Some (map lev_code ls, st_store st') | None => None end\n  | None => None\n  end.\n\
+Definition ok1 (x : N * (N * N * N) * list scall * scall * list N * list (N * (N * N))) : bool :=\n  let '(_, _, _, _, obs, cen) := x in\n  match run1 x with Some (ls, sto) => list_N_eqb ls obs && store_eqb sto cen | None => false end.\n\
+Definition id_of (x : N * (N * N * N) * list scall * scall * list N * list (N * (N * N))) : N := let '(k, _, _, _, _, _) := x in k.\n\
+Definition bad := map id_of (filter (fun x => negb (ok1 x)) cases).\n\
+Goal True. idtac \"@@bad\". Abort.\nEval vm_compute in bad.\nGoal True. idtac \"@@count\". Abort.\nEval vm_compute in (length cases).\n\
+Goal True. idtac \"@@model_of_bad\". Abort.\nEval vm_compute in (map (fun x => (id_of x, run1 x)) (filter (fun x => negb (ok1 x)) cases)).\nGoal True. idtac \"@@end\". Abort.\n",
+    );
+    let summary = json!({"cases": js, "n": cases.len(), "distinct_lock_sequences": shapes.len(), "ignored_lock_events": ignored_total});
+    (coq, summary)
+}
+
+// ---------------------------------------------------------------------------------------------
+// (ii) directed schedules
+// ---------------------------------------------------------------------------------------------
+
+struct Env {
+    b: Arc<HnswBackend>,
+    c: Cfg,
+    dir: PathBuf,
+    inst: HashMap<String, u64>, // class name -> lock instance
+}
+
+fn learn_instances(b: &HnswBackend, lines: &HashMap<u32, String>) -> HashMap<String, u64> {
+    vt::clear();
+    vt::clear_gates();
+    vt::reset_events();
+    vt::enable();
+    do_call(b, &Call::Ins(9000, 1, 1));
+    do_call(b, &Call::Snap);
+    do_call(b, &Call::Del(9000));
+    let evs = vt::drain();
+    let mut m = HashMap::new();
+    for e in &evs {
+        if let Some((f, l, _)) = e.created {
+            if f.ends_with("hnsw_backend.rs") {
+                if let Some(n) = lines.get(&l) {
+                    m.insert(n.clone(), e.lock);
+                }
+            }
+        }
+    }
+    m
+}
+
+fn env(base: &Path, name: &str, c: Cfg, lines: &HashMap<u32, String>) -> Env {
+    let dir = fresh_dir(base, name);
+    let b = Arc::new(eng::start(&c, &dir).expect("engine start"));
+    let inst = learn_instances(&b, lines);
+    Env { b, c, dir, inst }
+}
+
+#[allow(clippy::too_many_arguments)]
+fn gate(env: &Env, label: u32, class: &str, mode: vt::Mode, phase: vt::Phase, nth: u32, signal: Option<u32>, wait: Option<u32>) {
+    vt::add_gate(vt::Gate {
+        thread_label: label,
+        lock: vt::LockSel::Instance(*env.inst.get(class).unwrap_or(&u64::MAX)),
+        mode: Some(mode),
+        op: Some(vt::Op::Acquire),
+        nth,
+        phase,
+        signal,
+        wait,
+        timeout_ms: 8000,
+    });
+}
+
+fn spawn(env: &Env, label: u32, calls: Vec<Call>, done: Arc<AtomicUsize>) -> std::thread::JoinHandle<Vec<String>> {
+    let b = env.b.clone();
+    std::thread::spawn(move || {
+        vt::set_thread_label(label);
+        let r = calls.iter().map(|c| do_call(&b, c)).collect();
+        done.fetch_add(1, Ordering::SeqCst);
+        r
+    })
+}
+
+fn wait_ev(e: u32) -> bool {
+    vt::wait_event(e, Duration::from_millis(8000))
+}
+
+/// join, final census, drop engine, recover on a copy, compare
+fn finish(env: Env, hs: Vec<std::thread::JoinHandle<Vec<String>>>, name: &str, mut checks: Vec<(String, bool)>, extra: Value) -> Value {
+    let mut outs = vec![];
+    for h in hs {
+        outs.push(h.join().unwrap_or_else(|_| vec!["panic".into()]));
+    }
+    vt::disable();
+    let evs = vt::drain();
+    vt::clear_gates();
+    let timeouts = evs.iter().filter(|e| e.text.as_deref().map_or(false, |t| t.starts_with("gate-timeout"))).count();
+    checks.push(("no-gate-timeout".into(), timeouts == 0));
+    let Env { b, c, dir, .. } = env;
+    let live = eng::census(&b);
+    let man_before = manifest_json(&dir);
+    drop(b);
+    let rec = recover_copy(&c, &dir);
+    let equal = matches!(&rec, Ok(r) if *r == live);
+    let ok = equal && checks.iter().all(|(_, v)| *v);
+    let v = json!({
+        "name": name, "ok": ok, "census_equal": equal,
+        "checks": checks.iter().map(|(k, v)| json!([k, v])).collect::<Vec<_>>(),
+        "outcomes": outs, "live": census_tags(&live),
+        "recovered": match &rec { Ok(r) => json!(census_tags(r)), Err(e) => json!({"error": e}) },
+        "manifest": man_before, "extra": extra, "events": evs.len(),
+    });
+    let _ = std::fs::remove_dir_all(&dir);
+    v
+}
+
+/// position (recorder sequence number) of the first event of `label` matching the predicate
+fn first_seq(evs: &[vt::Event], label: u32, lock: u64, op: vt::Op, phase: vt::Phase, mode: Option<vt::Mode>) -> Option<u64> {
+    evs.iter()
+        .find(|e| e.thread_label == label && e.lock == lock && e.op == op && e.phase == phase && mode.map_or(true, |m| m == e.mode))
+        .map(|e| e.seq)
+}
+
+fn directed(base: &Path, lines: &HashMap<u32, String>) -> Vec<Value> {
+    use vt::{Mode, Phase};
+    let mut res = vec![];
+
+    // D1: writer W1 stopped after seq allocation + WAL append (+ rotation), before the store apply;
+    //     a manual create_snapshot is requested: it must not capture until W1 has applied.
+    for (tag, call) in [("insert", Call::Ins(1, 3, 4)), ("delete", Call::Del(5)), ("update", Call::Upd(5, 9)), ("batch", Call::Batch(vec![5, 6]))] {
+        let e = env(base, "d1", cfg(0, 1, 100), lines);
+        do_call(&e.b, &Call::Ins(5, 1, 1));
+        do_call(&e.b, &Call::Ins(6, 2, 2));
+        // the apply of insert starts with index.write(); of the others with doc_store.write()
+        let apply_lock = if tag == "insert" { "index" } else { "doc_store" };
+        gate(&e, 1, apply_lock, Mode::Write, Phase::Req, 1, Some(11), Some(12));
+        gate(&e, 2, "snapshot_lock", Mode::Write, Phase::Req, 1, Some(21), None);
+        gate(&e, 2, "snapshot_lock", Mode::Write, Phase::Done, 1, Some(22), None);
+        let done = Arc::new(AtomicUsize::new(0));
+        let h1 = spawn(&e, 1, vec![call.clone()], done.clone());
+        let a = wait_ev(11);
+        let h2 = spawn(&e, 2, vec![Call::Snap], done.clone());
+        let b2 = wait_ev(21);
+        std::thread::sleep(Duration::from_millis(120));
+        let captured_early = vt::is_signalled(22);
+        let w1_done_early = done.load(Ordering::SeqCst) > 0;
+        vt::signal(12);
+        let c2 = wait_ev(22);
+        let checks = vec![
+            ("w1-reached-pre-apply".to_string(), a),
+            ("snapshot-requested".to_string(), b2),
+            ("snapshot-did-not-capture-while-writer-in-flight".to_string(), !captured_early && !w1_done_early),
+            ("snapshot-captured-after-release".to_string(), c2),
+        ];
+        res.push(finish(e, vec![h1, h2], &format!("D1-writer-between-append-and-apply-vs-manual-snapshot/{}", tag), checks, json!({})));
+    }
+
+    // D2: automatic snapshot due inside W1 (its write is complete) while W2 sits between sequence
+    //     allocation/append and apply: W1's capture must wait for W2 and then contain W2's write.
+    {
+        let e = env(base, "d2", cfg(1, 1, 100), lines);
+        gate(&e, 1, "snapshot_lock", Mode::Write, Phase::Req, 1, Some(31), Some(32));
+        gate(&e, 1, "snapshot_lock", Mode::Write, Phase::Done, 1, Some(33), None);
+        gate(&e, 2, "index", Mode::Write, Phase::Req, 1, Some(11), Some(12));
+        let done = Arc::new(AtomicUsize::new(0));
+        let h1 = spawn(&e, 1, vec![Call::Ins(1, 3, 4)], done.clone());
+        let a = wait_ev(31); // W1's write is applied and acknowledged in memory; its automatic snapshot is about to start
+        let h2 = spawn(&e, 2, vec![Call::Ins(2, 5, 6)], done.clone());
+        let b2 = wait_ev(11); // W2 allocated its seq and appended, not applied
+        vt::signal(32); // W1 now asks for snapshot_lock.write()
+        std::thread::sleep(Duration::from_millis(120));
+        let early = vt::is_signalled(33);
+        vt::signal(12);
+        let c2 = wait_ev(33);
+        let checks = vec![
+            ("w1-at-auto-snapshot".to_string(), a),
+            ("w2-between-append-and-apply".to_string(), b2),
+            ("auto-snapshot-waited-for-w2".to_string(), !early),
+            ("auto-snapshot-captured".to_string(), c2),
+        ];
+        res.push(finish(e, vec![h1, h2], "D2-auto-snapshot-in-W1-while-W2-between-alloc-and-apply", checks, json!({})));
+    }
+
+    // D3: two snapshots race on the manifest: S1 captured first (older), S2 captured later and
+    //     commits first; S1 must find the newer pointer and leave it (cf. the unit test
+    //     test_create_snapshot_refuses_to_overwrite_newer_manifest_snapshot).
+    {
+        let e = env(base, "d3", cfg(0, 1, 100), lines);
+        do_call(&e.b, &Call::Ins(1, 1, 1));
+        do_call(&e.b, &Call::Ins(2, 2, 2));
+        gate(&e, 1, "manifest_lock", Mode::Mutex, Phase::Req, 1, Some(41), Some(42));
+        let done = Arc::new(AtomicUsize::new(0));
+        let h1 = spawn(&e, 1, vec![Call::Snap], done.clone());
+        let a = wait_ev(41); // S1 has captured and saved its file
+        let w = do_call(&e.b, &Call::Ins(3, 3, 3));
+        let w2 = do_call(&e.b, &Call::Del(1));
+        let s2 = do_call(&e.b, &Call::Snap);
+        let m_mid = manifest_json(&e.dir);
+        let seq_mid = m_mid["latest_snapshot_wal_seq"].as_u64().unwrap_or(0);
+        let name_mid = m_mid["latest_snapshot"].as_str().unwrap_or("").to_string();
+        vt::signal(42);
+        let r1 = h1.join().unwrap_or_default();
+        let m_end = manifest_json(&e.dir);
+        let seq_end = m_end["latest_snapshot_wal_seq"].as_u64().unwrap_or(0);
+        let name_end = m_end["latest_snapshot"].as_str().unwrap_or("").to_string();
+        let snaps: Vec<String> = std::fs::read_dir(&e.dir).unwrap().filter_map(|x| x.ok()).map(|x| x.file_name().to_string_lossy().to_string()).filter(|n| n.ends_with(".snap")).collect();
+        let checks = vec![
+            ("s1-stopped-before-manifest".to_string(), a),
+            ("writes-and-newer-snapshot-ok".to_string(), w == "ok" && w2 == "ok:true" && s2 == "ok"),
+            ("older-snapshot-returned-ok".to_string(), r1 == vec!["ok".to_string()]),
+            ("pointer-not-lowered".to_string(), seq_end == seq_mid && name_end == name_mid && seq_mid > 0),
+            ("pointer-file-exists".to_string(), snaps.contains(&name_end)),
+        ];
+        res.push(finish(e, vec![], "D3-older-snapshot-must-not-overwrite-newer-pointer", checks, json!({"seq_mid": seq_mid, "seq_end": seq_end, "snapshot_files": snaps})));
+    }
+
+    // D4a: rotation arrives while a snapshot holds manifest_lock (before its load): the writer has
+    //      appended to the active segment and must wait; both manifest updates must survive.
+    {
+        let e = env(base, "d4a", cfg(0, 1, 100), lines);
+        do_call(&e.b, &Call::Ins(1, 1, 1));
+        gate(&e, 1, "manifest_lock", Mode::Mutex, Phase::Done, 1, Some(51), Some(52));
+        gate(&e, 2, "manifest_lock", Mode::Mutex, Phase::Req, 1, Some(61), None);
+        gate(&e, 2, "manifest_lock", Mode::Mutex, Phase::Done, 1, Some(62), None);
+        let done = Arc::new(AtomicUsize::new(0));
+        let h1 = spawn(&e, 1, vec![Call::Snap], done.clone());
+        let a = wait_ev(51);
+        let h2 = spawn(&e, 2, vec![Call::Ins(2, 2, 2), Call::Upd(1, 5)], done.clone());
+        let b2 = wait_ev(61);
+        std::thread::sleep(Duration::from_millis(120));
+        let early = vt::is_signalled(62);
+        vt::signal(52);
+        let checks = vec![
+            ("snapshot-holds-manifest-lock".to_string(), a),
+            ("rotation-requested".to_string(), b2),
+            ("rotation-waited".to_string(), !early),
+        ];
+        res.push(finish(e, vec![h1, h2], "D4a-rotation-during-snapshot-manifest-section", checks, json!({})));
+    }
+    // D4b: the other way round: the writer is inside rotation's manifest section when the snapshot
+    //      arrives at manifest_lock.
+    {
+        let e = env(base, "d4b", cfg(0, 1, 100), lines);
+        do_call(&e.b, &Call::Ins(1, 1, 1));
+        gate(&e, 2, "manifest_lock", Mode::Mutex, Phase::Done, 1, Some(71), Some(72));
+        gate(&e, 1, "manifest_lock", Mode::Mutex, Phase::Req, 1, Some(81), None);
+        gate(&e, 1, "manifest_lock", Mode::Mutex, Phase::Done, 1, Some(82), None);
+        let done = Arc::new(AtomicUsize::new(0));
+        // the snapshot must capture BEFORE the writer takes snapshot_lock shared: start it first and
+        // stop the writer's rotation only after the snapshot has passed its capture
+        gate(&e, 1, "snapshot_lock", Mode::Write, Phase::Done, 1, Some(83), None);
+        let h1 = spawn(&e, 1, vec![Call::Snap], done.clone());
+        let a0 = wait_ev(83);
+        let h2 = spawn(&e, 2, vec![Call::Ins(2, 2, 2), Call::Del(1)], done.clone());
+        let a = wait_ev(71);
+        let b2 = wait_ev(81) || vt::is_signalled(82);
+        std::thread::sleep(Duration::from_millis(60));
+        vt::signal(72);
+        let checks = vec![
+            ("snapshot-captured-first".to_string(), a0),
+            ("writer-inside-rotation".to_string(), a),
+            ("snapshot-reached-manifest-lock".to_string(), b2),
+        ];
+        res.push(finish(e, vec![h1, h2], "D4b-snapshot-arrives-during-rotation-manifest-section", checks, json!({})));
+    }
+    // D5: a writer runs completely (append to the active segment, apply) while the snapshot sits
+    //     inside its manifest section with an older `last`: the newer entry must survive compaction.
+    {
+        let e = env(base, "d5", cfg(0, 0, 100), lines);
+        do_call(&e.b, &Call::Ins(1, 1, 1));
+        gate(&e, 1, "manifest_lock", Mode::Mutex, Phase::Done, 1, Some(91), Some(92));
+        let done = Arc::new(AtomicUsize::new(0));
+        let h1 = spawn(&e, 1, vec![Call::Snap], done.clone());
+        let a = wait_ev(91);
+        let w1 = do_call(&e.b, &Call::Ins(2, 2, 2));
+        let w2 = do_call(&e.b, &Call::Del(1));
+        vt::signal(92);
+        let checks = vec![("snapshot-inside-manifest-section".to_string(), a), ("writes-during-manifest-section".to_string(), w1 == "ok" && w2 == "ok:true")];
+        res.push(finish(e, vec![h1], "D5-writes-during-snapshot-manifest-section", checks, json!({})));
+    }
+    let _ = first_seq; // (kept for replays that inspect the event order)
+    res
+}
+
+
+/// Probe (not part of the check's verdict): two snapshots with different `last` released at the same
+/// instant after their captures.  The model assumes distinct file ids; the code names the file after
+/// the microsecond clock.  Reports how often both got the same name and what recovery then says.
+fn probe_fileid(base: &Path, lines: &HashMap<u32, String>, n: usize) -> Value {
+    use vt::{Mode, Phase};
+    let (mut same_name, mut bad) = (0usize, vec![]);
+    for i in 0..n {
+        let e = env(base, "probe", cfg(0, 1, 100), lines);
+        do_call(&e.b, &Call::Ins(1, 1, 1));
+        gate(&e, 1, "index", Mode::Read, Phase::Req, 1, Some(111), Some(101));
+        gate(&e, 2, "index", Mode::Read, Phase::Req, 1, Some(112), Some(101));
+        let done = Arc::new(AtomicUsize::new(0));
+        let h1 = spawn(&e, 1, vec![Call::Snap], done.clone());
+        wait_ev(111);
+        do_call(&e.b, &Call::Ins(2, 2, 2));
+        let h2 = spawn(&e, 2, vec![Call::Snap], done.clone());
+        wait_ev(112);
+        vt::signal(101);
+        let _ = h1.join();
+        let _ = h2.join();
+        vt::disable();
+        let evs = vt::drain();
+        vt::clear_gates();
+        let _ = evs;
+        let snaps: Vec<String> = std::fs::read_dir(&e.dir).unwrap().filter_map(|x| x.ok()).map(|x| x.file_name().to_string_lossy().to_string()).filter(|n| n.ends_with(".snap")).collect();
+        let Env { b, c, dir, .. } = e;
+        let live = eng::census(&b);
+        let man = manifest_json(&dir);
+        drop(b);
+        let rec = recover_copy(&c, &dir);
+        let equal = matches!(&rec, Ok(r) if *r == live);
+        // warm-up snapshot + two racing ones: 3 files when the older one won the lock race first, 2 when it was stale;
+        // fewer than 2 means a name was shared
+        if snaps.len() < 2 { same_name += 1; }
+        if !equal {
+            bad.push(json!({"trial": i, "snapshots": snaps, "manifest": man, "live": census_tags(&live),
+                            "recovered": match &rec { Ok(r) => json!(census_tags(r)), Err(e) => json!({"error": e}) }}));
+        }
+        let _ = std::fs::remove_dir_all(&dir);
+    }
+    json!({"trials": n, "fewer_snapshot_files_than_expected": same_name, "oracle_failures": bad})
+}
+
+// ---------------------------------------------------------------------------------------------
+// (iii) seeded stress
+// ---------------------------------------------------------------------------------------------
+
+#[derive(Clone, Debug, serde::Serialize, serde::Deserialize)]
+struct StressCase {
+    id: usize,
+    interval: usize,
+    max_wal: u64,
+    cap: usize,
+    writers: Vec<Vec<String>>, // calls rendered with render()
+    snaps: usize,
+    delays: Vec<(u32, String, u32, bool, u64)>, // (label, class, nth, phase Req?, ms)
+}
+
+fn render(c: &Call) -> String {
+    match c {
+        Call::Ins(i, v, m) => format!("I {} {} {}", i, v, m),
+        Call::Del(i) => format!("D {}", i),
+        Call::Upd(i, m) => format!("U {} {}", i, m),
+        Call::Batch(ids) => format!("B {}", ids.iter().map(|x| x.to_string()).collect::<Vec<_>>().join(" ")),
+        Call::Snap => "S".into(),
+    }
+}
+
+fn parse(s: &str) -> Call {
+    let p: Vec<&str> = s.split_whitespace().collect();
+    let n = |i: usize| p.get(i).and_then(|x| x.parse::<u64>().ok()).unwrap_or(0);
+    match p.first().copied() {
+        Some("I") => Call::Ins(n(1), n(2), n(3)),
+        Some("D") => Call::Del(n(1)),
+        Some("U") => Call::Upd(n(1), n(2)),
+        Some("B") => Call::Batch(p[1..].iter().filter_map(|x| x.parse().ok()).collect()),
+        _ => Call::Snap,
+    }
+}
+
+fn gen_case(id: usize, rng: &mut Rng) -> StressCase {
+    let interval = *rng.pick(&[1usize, 2, 3, 3]);
+    let max_wal = *rng.pick(&[1u64, 100, 150, 150]);
+    let cap = *rng.pick(&[6usize, 7, 9, 12]);
+    let nw = rng.range(1, 2) as usize;
+    let mut writers = vec![];
+    let mut tag = 10;
+    for _ in 0..nw {
+        let len = rng.range(10, 18);
+        let mut ops = vec![];
+        for _ in 0..len {
+            let id = rng.range(1, 4);
+            tag += 1;
+            let c = match rng.below(10) {
+                0..=4 => Call::Ins(id, tag, tag),
+                5 | 6 => Call::Del(id),
+                7 | 8 => Call::Upd(id, tag),
+                _ => Call::Batch(vec![id, rng.range(1, 4), id]),
+            };
+            ops.push(render(&c));
+        }
+        writers.push(ops);
+    }
+    let snaps = rng.range(2, 6) as usize;
+    let mut delays = vec![];
+    for _ in 0..rng.range(3, 8) {
+        let label = rng.range(1, (nw + 1) as u64) as u32;
+        let class = rng.pick(&["snapshot_lock", "write_gate", "wal", "manifest_lock", "index", "doc_store", "inserts_since_snapshot"]).to_string();
+        delays.push((label, class, rng.range(1, 12) as u32, rng.chance(1, 2), rng.range(1, 6)));
+    }
+    StressCase { id, interval, max_wal, cap, writers, snaps, delays }
+}
+
+fn run_stress_case(base: &Path, sc: &StressCase, lines: &HashMap<u32, String>) -> Value {
+    let e = env(base, &format!("stress_{}", sc.id % 8), cfg(sc.interval, sc.max_wal, sc.cap), lines);
+    for (label, class, nth, req, ms) in &sc.delays {
+        // a delay = a gate that waits for an event nobody signals, with a short timeout
+        vt::add_gate(vt::Gate {
+            thread_label: *label,
+            lock: vt::LockSel::Instance(*e.inst.get(class.as_str()).unwrap_or(&u64::MAX)),
+            mode: None,
+            op: None,
+            nth: *nth,
+            phase: if *req { vt::Phase::Req } else { vt::Phase::Done },
+            signal: None,
+            wait: Some(9_999),
+            timeout_ms: *ms,
+        });
+    }
+    let done = Arc::new(AtomicUsize::new(0));
+    let stop = Arc::new(AtomicBool::new(false));
+    let mut hs = vec![];
+    for (i, ops) in sc.writers.iter().enumerate() {
+        hs.push(spawn(&e, (i + 1) as u32, ops.iter().map(|s| parse(s)).collect(), done.clone()));
+    }
+    let snap_label = (sc.writers.len() + 1) as u32;
+    let hsnap = {
+        let b = e.b.clone();
+        let n = sc.snaps;
+        let stop = stop.clone();
+        std::thread::spawn(move || {
+            vt::set_thread_label(snap_label);
+            let mut r = vec![];
+            for _ in 0..n {
+                if stop.load(Ordering::SeqCst) {
+                    break;
+                }
+                r.push(do_call(&b, &Call::Snap));
+                std::thread::yield_now();
+            }
+            r
+        })
+    };
+    let t0 = Instant::now();
+    let mut outs = vec![];
+    for h in hs {
+        outs.push(h.join().unwrap_or_else(|_| vec!["panic".into()]));
+    }
+    stop.store(true, Ordering::SeqCst);
+    let so = hsnap.join().unwrap_or_else(|_| vec!["panic".into()]);
+    let _ = done;
+    vt::disable();
+    let evs = vt::drain();
+    vt::clear_gates();
+    // how much real contention happened: snapshot_lock.write() requested while a reader holds it;
+    // manifest_lock requested while held
+    let snap_inst = *e.inst.get("snapshot_lock").unwrap_or(&0);
+    let man_inst = *e.inst.get("manifest_lock").unwrap_or(&0);
+    let mut readers = 0i64;
+    let mut man_held = false;
+    let (mut snap_contended, mut man_contended, mut captures) = (0usize, 0usize, 0usize);
+    for ev in &evs {
+        if ev.lock == snap_inst {
+            match (ev.op, ev.phase, ev.mode) {
+                (vt::Op::Acquire, vt::Phase::Done, vt::Mode::Read) => readers += 1,
+                (vt::Op::Release, _, vt::Mode::Read) => readers -= 1,
+                (vt::Op::Acquire, vt::Phase::Req, vt::Mode::Write) => {
+                    captures += 1;
+                    if readers > 0 {
+                        snap_contended += 1
+                    }
+                }
+                _ => {}
+            }
+        } else if ev.lock == man_inst {
+            match (ev.op, ev.phase) {
+                (vt::Op::Acquire, vt::Phase::Req) => {
+                    if man_held {
+                        man_contended += 1
+                    }
+                }
+                (vt::Op::Acquire, vt::Phase::Done) => man_held = true,
+                (vt::Op::Release, _) => man_held = false,
+                _ => {}
+            }
+        }
+    }
+    let Env { b, c, dir, .. } = e;
+    let live = eng::census(&b);
+    let man = manifest_json(&dir);
+    drop(b);
+    let rec = recover_copy(&c, &dir);
+    let equal = matches!(&rec, Ok(r) if *r == live);
+    let mut hist: BTreeMap<String, usize> = BTreeMap::new();
+    for (ops, out) in sc.writers.iter().zip(outs.iter()) {
+        for (o, r) in ops.iter().zip(out.iter()) {
+            let k = format!("{}:{}", &o[..1], if r.starts_with("err") { r.as_str() } else { r.split(':').next().unwrap_or("ok") });
+            *hist.entry(k).or_insert(0) += 1;
+        }
+    }
+    for r in &so {
+        *hist.entry(format!("S:{}", if r.starts_with("err") { r.as_str() } else { "ok" })).or_insert(0) += 1;
+    }
+    let v = json!({
+        "id": sc.id, "equal": equal, "live": census_tags(&live),
+        "recovered": match &rec { Ok(r) => json!(census_tags(r)), Err(e) => json!({"error": e}) },
+        "snapshot_seq": man["latest_snapshot_wal_seq"].as_u64().unwrap_or(0),
+        "segments": man["wal_segments"].as_array().map(|a| a.len()).unwrap_or(0),
+        "snap_contended": snap_contended, "manifest_contended": man_contended, "captures": captures,
+        "hist": hist, "ms": t0.elapsed().as_millis() as u64,
+    });
+    let _ = std::fs::remove_dir_all(&dir);
+    v
+}
+
+fn main() {
+    let args: Vec<String> = std::env::args().collect();
+    let get = |k: &str| args.iter().position(|a| a == k).and_then(|i| args.get(i + 1)).cloned();
+    let out = PathBuf::from(get("--out").expect("--out DIR"));
+    let n: usize = get("--n").and_then(|s| s.parse().ok()).unwrap_or(20);
+    let skip_fixed = args.iter().any(|a| a == "--stress-only");
+    std::fs::create_dir_all(&out).unwrap();
+    let work = out.join("work");
+    let _ = std::fs::remove_dir_all(&work);
+    std::fs::create_dir_all(&work).unwrap();
+    let lines = creation_lines();
+    let mut rng = Rng::from_env();
+
+    // watchdog: a hang is reported by C08, here it must not block the check
+    {
+        let out = out.clone();
+        let budget = 600 + (n as u64) / 2;
+        std::thread::spawn(move || {
+            std::thread::sleep(Duration::from_secs(budget));
+            let _ = std::fs::write(out.join("summary.json"), serde_json::to_vec(&json!({"hang": true})).unwrap());
+            std::process::exit(3);
+        });
+    }
+
+    if let Some(k) = get("--probe-fileid") {
+        let v = probe_fileid(&work, &lines, k.parse().unwrap_or(100));
+        std::fs::write(out.join("probe.json"), serde_json::to_vec_pretty(&v).unwrap()).unwrap();
+        println!("probe: {}", v);
+        return;
+    }
+    if let Some(rp) = get("--replay") {
+        let v: Value = serde_json::from_slice(&std::fs::read(&rp).expect("replay file")).expect("json");
+        let case = if v.get("case").is_some() { v["case"].clone() } else { v.clone() };
+        let sc: StressCase = serde_json::from_value(case).expect("stress case");
+        let mut fails = vec![];
+        for i in 0..50 {
+            let r = run_stress_case(&work, &sc, &lines);
+            if !r["equal"].as_bool().unwrap_or(false) {
+                fails.push(json!({"attempt": i, "result": r}));
+                break;
+            }
+        }
+        let s = json!({"replay": true, "stress": {"runs": 50, "failures": fails}});
+        std::fs::write(out.join("summary.json"), serde_json::to_vec_pretty(&s).unwrap()).unwrap();
+        println!("replay: {} failures", s["stress"]["failures"].as_array().unwrap().len());
+        return;
+    }
+
+    let (skel_json, dir_res) = if skip_fixed {
+        (json!({"n": 0, "cases": []}), vec![])
+    } else {
+        let (coq, sj) = run_skeleton(&work, &lines);
+        std::fs::write(out.join("cases_0.v"), coq).unwrap();
+        (sj, directed(&work, &lines))
+    };
+
+    let mut stress = vec![];
+    let mut failures = vec![];
+    let mut hist: BTreeMap<String, usize> = BTreeMap::new();
+    let (mut nontrivial, mut snap_c, mut man_c, mut captures) = (0usize, 0usize, 0usize, 0usize);
+    let mut all_cases = vec![];
+    for i in 0..n {
+        let mut r = rng.fork(i as u64);
+        let sc = gen_case(i, &mut r);
+        let v = run_stress_case(&work, &sc, &lines);
+        if let Some(h) = v["hist"].as_object() {
+            for (k, c) in h {
+                *hist.entry(k.clone()).or_insert(0) += c.as_u64().unwrap_or(0) as usize;
+            }
+        }
+        let sc_c = v["snap_contended"].as_u64().unwrap_or(0) as usize;
+        let mc = v["manifest_contended"].as_u64().unwrap_or(0) as usize;
+        snap_c += sc_c;
+        man_c += mc;
+        captures += v["captures"].as_u64().unwrap_or(0) as usize;
+        if v["snapshot_seq"].as_u64().unwrap_or(0) > 0 && (sc_c > 0 || mc > 0) {
+            nontrivial += 1;
+        }
+        if !v["equal"].as_bool().unwrap_or(false) {
+            failures.push(json!({"why": "recovered census differs from live census after all calls returned", "case": sc, "result": v}));
+        }
+        all_cases.push(serde_json::to_value(&sc).unwrap());
+        if stress.len() < 3 {
+            stress.push(v);
+        }
+    }
+    let summary = json!({
+        "skeleton": skel_json,
+        "directed": dir_res,
+        "stress": {"runs": n, "failures": failures, "nontrivial": nontrivial, "histogram": hist,
+                    "snapshot_lock_write_requests": captures, "snapshot_lock_write_requested_while_readers": snap_c,
+                    "manifest_lock_requested_while_held": man_c, "samples": stress},
+    });
+    std::fs::write(out.join("summary.json"), serde_json::to_vec_pretty(&summary).unwrap()).unwrap();
+    std::fs::write(out.join("all_cases.json"), serde_json::to_vec(&all_cases).unwrap()).unwrap();
+    let _ = std::fs::remove_dir_all(&work);
+    println!(
+        "c09: skeleton {} cases, directed {} ({} ok), stress {} runs, {} failures",
+        summary["skeleton"]["n"],
+        summary["directed"].as_array().unwrap().len(),
+        summary["directed"].as_array().unwrap().iter().filter(|d| d["ok"].as_bool().unwrap_or(false)).count(),
+        n,
+        summary["stress"]["failures"].as_array().unwrap().len()
+    );
+}
+
+#[allow(dead_code)]
+fn _unused(_: Meta) {}
